@@ -2228,7 +2228,11 @@ def _eq(left: object, right: object) -> bool:
     if isinstance(left, bool):
         return isinstance(right, bool) and left == right
 
-    return left == right
+    try:
+        return left == right
+    except ArithmeticError:
+        # Comparing a signalling decimal NaN raises decimal.InvalidOperation.
+        return False
 
 
 def _lt(token: TokenT, left: object, right: object) -> bool:
@@ -2247,7 +2251,12 @@ def _lt(token: TokenT, left: object, right: object) -> bool:
     if isinstance(left, (int, float, Decimal)) and isinstance(
         right, (int, float, Decimal)
     ):
-        return left < right
+        try:
+            return left < right
+        except ArithmeticError:
+            # Ordering a decimal NaN raises decimal.InvalidOperation; like a
+            # float nan it is neither less nor greater than anything.
+            return False
 
     raise LiquidTypeError(
         f"'<' and '>' are not supported between '{left.__class__.__name__}' "
